@@ -524,7 +524,10 @@ def judge_fault(case, vd, r, cfg, fired):
     if r.code == 0:
         vd.add("silent-failure", fault_kind=fk, config=cfgs, fired=r.fired[:3], stdout_len=len(r.stdout),
                stderr=r.stderr[:300].decode("utf-8", "replace"))
-    elif b"mlr" not in r.stderr:
+    elif not r.stderr.strip():
+        # R3: the property asks that the problem be named on stderr; it does not fix the wording (C18 does: "mlr:").
+        # One maintained message has no "mlr" in it: "couldn't assign variable str function return value from value
+        # error (error)", pinned by the regression case dsl-argpass-typedecl/0005
         vd.add("no-diagnostic", fault_kind=fk, config=cfgs, code=r.code, stderr=r.stderr[:300].decode("utf-8", "replace"))
 
 
